@@ -67,9 +67,12 @@ def make_element(kind, unset, attached, how):
         return el, None, db
     if kind == 'enum_item':
         el = EnumItem(None if ctor and 'name' in unset else 'it')
+        holder = Enum('eh', [EnumItem('first'), el])
+        if db:
+            db.add(holder)
         for a in unset:
             setattr(el, a, None)
-        return el, None, db
+        return el, holder, db
     if kind == 'reference':
         el = Reference(None if ctor and 'type' in unset else '>', c, oc)
         if db:
@@ -89,7 +92,7 @@ def elem_job(job):
     r = {'self': O.run(lambda: el.sql)}
     if parent is not None:
         r['parent'] = O.run(lambda: parent.sql)
-    if db is not None and kind in ('table', 'column', 'index', 'enum', 'reference'):
+    if db is not None and kind in ('table', 'column', 'index', 'enum', 'enum_item', 'reference'):
         r['db'] = O.run(lambda: db.sql)
     return {k: (v[0] if v[0] == 'ok' else v[1]) for k, v in r.items()}
 
@@ -151,7 +154,7 @@ def main(tier, seed):
         ctx.count(f'elem:{kind}:{len(unset)}-unset')
         want = 'lib:AttributeMissingError' if unset else 'ok'
         for via, got in r.items():
-            if via != 'self' and (not attached or kind in ('index', 'reference') and via == 'db'):
+            if via != 'self' and kind != 'enum_item' and (not attached or kind in ('index', 'reference') and via == 'db'):
                 continue    # a detached table cannot render SQL at all (UnknownDatabaseError comes first)
             if want == 'ok' and not attached and kind == 'table':
                 continue
